@@ -371,7 +371,7 @@ func resetLooksAtWhatIsLoaded(c *core.Ctx) {
 							walk(x.Y, d+1)
 						case *ssa.UnOp:
 							if fa, ok := x.X.(*ssa.FieldAddr); ok && core.NamedOf(fa.X.Type()) == vmT {
-								fields[vmT.Underlying().(*types.Struct).Field(fa.Field).Name()] = true
+								fields[anchorName(vmT, fa.Field)] = true
 								return
 							}
 							walk(x.X, d+1)
